@@ -462,8 +462,8 @@ def solver_empty(ctx, f, n):
     sm = summarise(T, fk.node)
     ps = [a.arg for a in fk.node.args.args]
     ext = {l.canon: l.extent for l in sm.loops}
-    kernel_ok = len(sm.stores) == 1 and sm.stores[0].array == ps[4] and sm.stores[0].index == ("v0", "v1") and \
-        ext.get("v0") == f"{ps[3]}.shape[0]" and ext.get("v1") == f"{ps[0]}.shape[1]" and \
+    from ..kernel import output_coverage
+    kernel_ok = output_coverage(sm, fk.node, ps) is not None and not sm.problems and \
         any(norm(a.test) == f"{ps[0]}.shape[1] == 2" for a in fk.node.body if isinstance(a, ast.Assert))
     ok = shape_ok and same_space and ok_order and not other_readers and kernel_ok
     ctx.ob("R09.4", "TDGLSolver.__init__: np.empty((num_edges, 2)) is filled by the screening kernel before it is read", ok,
